@@ -319,6 +319,28 @@ def setattr_shape(classes):
     # the real assignment must follow
     if "__setattr__" not in ast.dump(body[1]):
         raise ExtractError("LazyMutableClass.__setattr__: missing super().__setattr__")
+    # LazyMutableClass.__init__ must store the list it is given (or, for None, the public names of __dict__):
+    #   if static_attributes is None: self._static_attrs = [attr for attr in self.__dict__ if not attr.startswith("_")]
+    #   else:                         self._static_attrs = static_attributes
+    init = classes[BASE].funcs.get("__init__")
+    if init is None:
+        raise ExtractError("LazyMutableClass.__init__ not found")
+    ibody = [s for s in init.body if not (isinstance(s, ast.Expr) and isinstance(s.value, ast.Constant))]
+    ok_init = (len(ibody) == 1 and isinstance(ibody[0], ast.If) and len(ibody[0].body) == 1 and len(ibody[0].orelse) == 1
+               and isinstance(ibody[0].test, ast.Compare) and isinstance(ibody[0].test.left, ast.Name)
+               and ibody[0].test.left.id == "static_attributes" and isinstance(ibody[0].test.ops[0], ast.Is)
+               and isinstance(ibody[0].test.comparators[0], ast.Constant) and ibody[0].test.comparators[0].value is None)
+    if ok_init:
+        a_none, a_given = ibody[0].body[0], ibody[0].orelse[0]
+        ok_init = (isinstance(a_none, ast.Assign) and isinstance(a_given, ast.Assign)
+                   and ast.dump(a_none.targets[0]) == ast.dump(a_given.targets[0])
+                   and isinstance(a_given.targets[0], ast.Attribute) and a_given.targets[0].attr == "_static_attrs"
+                   and isinstance(a_given.value, ast.Name) and a_given.value.id == "static_attributes"
+                   and isinstance(a_none.value, ast.ListComp) and "__dict__" in ast.dump(a_none.value)
+                   and "startswith" in ast.dump(a_none.value))
+    if not ok_init:
+        raise ExtractError("LazyMutableClass.__init__: unexpected shape (the static attribute list must be the "
+                           "given one, or the public names of __dict__ when none is given)")
     # _clear_cache must delete every _lazy_ attribute
     cc = classes[BASE].funcs.get("_clear_cache")
     if cc is None or "_lazy_" not in ast.dump(cc) or "delattr" not in ast.dump(cc):
